@@ -116,6 +116,41 @@ static bool check_fixed64(uint64_t v, int align) {
   if (d != v) BAD("mtbl_fixed_decode64(encode64(%llu)) at alignment %d = %llu", (unsigned long long)v, align, (unsigned long long)d);
   return true;
 }
+// A caller that keeps ONE scratch buffer and re-reads it after rewriting it, all inside one function compiled with
+// optimisation against the repository's own mtbl.h: "exact inverses" has to survive whatever the declarations in that header
+// let the caller's compiler assume (e.g. a decode function wrongly declared __attribute__((const)) is folded with the
+// earlier call on the same address).
+static bool check_reuse(uint64_t v) {
+  uint8_t buf[24];
+  memset(buf, 0, sizeof buf);
+  uint64_t w = ~v;
+  mtbl_fixed_encode64(buf, v);
+  uint64_t a64 = mtbl_fixed_decode64(buf);
+  mtbl_fixed_encode64(buf, w);
+  uint64_t b64 = mtbl_fixed_decode64(buf);
+  if (a64 != v || b64 != w) BAD("fixed64 scratch buffer reused: decode after encode(%llu) = %llu, after re-encoding %llu in the same place = %llu", (unsigned long long)v, (unsigned long long)a64, (unsigned long long)w, (unsigned long long)b64);
+  mtbl_fixed_encode32(buf, (uint32_t)v);
+  uint32_t a32 = mtbl_fixed_decode32(buf);
+  mtbl_fixed_encode32(buf, (uint32_t)w);
+  uint32_t b32 = mtbl_fixed_decode32(buf);
+  if (a32 != (uint32_t)v || b32 != (uint32_t)w) BAD("fixed32 scratch buffer reused: decode after encode(%u) = %u, after re-encoding %u in the same place = %u", (uint32_t)v, a32, (uint32_t)w, b32);
+  uint8_t r1[10], r2[10];
+  unsigned l1 = ref_varint(v, r1), l2 = ref_varint(w, r2);
+  memset(buf, 0, sizeof buf);
+  size_t n1 = mtbl_varint_encode64(buf, v);
+  unsigned p1 = mtbl_varint_length_packed(buf, 10);
+  uint64_t d1 = 0;
+  unsigned c1 = mtbl_varint_decode64(buf, &d1);
+  memset(buf, 0, sizeof buf);
+  size_t n2 = mtbl_varint_encode64(buf, w);
+  unsigned p2 = mtbl_varint_length_packed(buf, 10);
+  uint64_t d2 = 0;
+  unsigned c2 = mtbl_varint_decode64(buf, &d2);
+  if (n1 != l1 || p1 != l1 || c1 != l1 || d1 != v || n2 != l2 || p2 != l2 || c2 != l2 || d2 != w)
+    BAD("varint scratch buffer reused: value %llu -> encode %zu / length_packed %u / decode %u -> %llu (expected %u bytes); then %llu in the same place -> %zu / %u / %u -> %llu (expected %u bytes)",
+        (unsigned long long)v, n1, p1, c1, (unsigned long long)d1, l1, (unsigned long long)w, n2, p2, c2, (unsigned long long)d2, l2);
+  return true;
+}
 // over-long / unterminated runs: v = number of continuation bytes
 static bool check_packed(uint64_t k) {
   // k continuation bytes followed by a terminator; beyond 9 continuation bytes the byte string is no valid 64-bit varint
@@ -155,6 +190,7 @@ static bool check_one(const Case &c) {
   if (c.what == "fixed32") return check_fixed32((uint32_t)c.v, c.align);
   if (c.what == "fixed64") return check_fixed64(c.v, c.align);
   if (c.what == "packed") return check_packed(c.v);
+  if (c.what == "reuse") return check_reuse(c.v);
   return true;
 }
 static Result run_case(const Case &c) {
@@ -165,7 +201,7 @@ static Result run_case(const Case &c) {
 }
 static Case gen_case() {
   Case c;
-  c.what = one_of<std::string>({"v32", "v64", "fixed32", "fixed64", "packed"});
+  c.what = one_of<std::string>({"v32", "v64", "fixed32", "fixed64", "packed", "reuse"});
   int bits = pick(0, 64);
   uint64_t v = ((uint64_t)pick_u32() << 32) | pick_u32();
   c.v = bits == 0 ? 0 : bits == 64 ? v : (v & ((1ull << bits) - 1)) | (1ull << (bits - 1));
@@ -210,6 +246,7 @@ static int extra_modes(const WorkerOpts &o, Stats &stats) {
       for (uint64_t v : vs) {
         CHECK("v64", v, 0, check_v64(v));
         CHECK("v32", (uint32_t)v, 0, check_v32((uint32_t)v));
+        CHECK("reuse", v, 0, check_reuse(v));
         if (v >= 128) n_multi++;
         for (int al = 0; al < 8; al++) {
           CHECK("fixed32", (uint32_t)v, al, check_fixed32((uint32_t)v, al));
@@ -236,6 +273,7 @@ static int extra_modes(const WorkerOpts &o, Stats &stats) {
       uint32_t w32 = b32 == 32 ? (uint32_t)v64 : (((uint32_t)v64 & ((1u << b32) - 1)) | (1u << (b32 - 1)));
       CHECK("v32", w32, 0, check_v32(w32));
       if ((i & 15) == 0) {
+        CHECK("reuse", w, 0, check_reuse(w));
         int al = (int)(idx % 8);
         CHECK("fixed32", v32, al, check_fixed32(v32, al));
         CHECK("fixed64", v64, al, check_fixed64(v64, al));
